@@ -7,7 +7,7 @@ from models import chart_oracles as co
 PID = 'C21'
 SCHEDULE_DEPENDENT = False
 RULE = ('seeded instrumented charts with live_spy and/or live_trace switched on, on queued hosts (callbacks inline) and '
-        'active objects (callbacks through the writer thread), under injected clock behaviours: fine (strictly '
+        'active objects (callbacks through the writer thread; a third stratum runs 2-3 active objects that share the writer, kept busy by 1-3 client threads under the seeded scheduler), under injected clock behaviours: fine (strictly '
         'increasing), coarse (1 ms / 15.6 ms / 1 s resolution: consecutive steps share a timestamp), frozen, and '
         'backward/forward jumps; oracle: the sequence handed to the live-spy callback equals the spy lines the steps '
         'produced, and the live-trace callback is called exactly once per new trace record, in order, with a line '
@@ -16,14 +16,37 @@ RULE = ('seeded instrumented charts with live_spy and/or live_trace switched on,
 ASSUMPTIONS = ['the clock is the injected fault; in active-object runs the client waits until the object and the writer thread are idle before comparing']
 PROBES = ['equal_consecutive_timestamps']
 PLAN = {
-  'quick': {'strata': {'fine-clock': 1500, 'faulty-clock': 4000}, 'wall_s': 90, 'chunk': 100, 'min_conclusive': 1000},
-  'thorough': {'strata': {'fine-clock': 30000, 'faulty-clock': 100000}, 'wall_s': 900, 'chunk': 250, 'min_conclusive': 10000},
+  'quick': {'strata': {'fine-clock': 1500, 'faulty-clock': 4000, 'shared-writer': 1500}, 'wall_s': 90, 'chunk': 100, 'min_conclusive': 1000},
+  'thorough': {'strata': {'fine-clock': 30000, 'faulty-clock': 100000, 'shared-writer': 40000}, 'wall_s': 900, 'chunk': 250, 'min_conclusive': 10000},
 }
 ORACLES = [co.check_live]
 
 
 def generate(seed, stratum, tier):
   rng = random.Random(seed)
+  if stratum == 'shared-writer':
+    # 2-3 active objects share the one writer thread; client threads keep them busy at the same time
+    from worlds import ao as aw, common
+    nobj = rng.randrange(2, 4)
+    objs = aw.default_objects(nobj)
+    for o in objs:
+      o['two_states'] = True
+      o['live_spy'], o['live_trace'] = rng.choice([(True, True), (True, False), (False, True)])
+      if rng.random() < 0.4:
+        o['react'] = {'SA': [{'op': 'post_fifo', 'sig': 'SC', 'id': 1, 'max': 2}]}
+    nclients = rng.randrange(1, 4)
+    clients = [[] for _ in range(nclients)]
+    clients[0] += [['start', i] for i in range(nobj)]
+    for c in range(1, nclients):
+      clients[c].append(['sleep', 0.001])
+    for _ in range(rng.randrange(3, 16)):
+      clients[rng.randrange(nclients)].append([rng.choice(['post_fifo', 'post_lifo']), rng.randrange(nobj), rng.choice(['SW', 'SW', 'SA', 'SB'])])
+    kind = rng.choice(['fine', 'coarse', 'coarse', 'frozen', 'jump'])
+    clock = {'kind': kind, 'q_us': rng.choice([1000, 15600, 1000000])}
+    if kind == 'jump':
+      clock['jumps'] = {str(rng.randrange(1, 300)): rng.choice([-3600_000_000, -1, 5_000_000]) for _ in range(rng.randrange(1, 3))}
+    return {'world': 'ao', 'objects': objs, 'queue_size': 500, 'clients': clients, 'clock': clock,
+            'sched': common.draw_sched(rng, grans=('sync', 'line'), expected_steps=2500, victims=[rng.choice(['writer', 'consumer'])])}
   host = rng.choice(['queued', 'queued', 'ao'])
   build = rng.choice(['closure-spied', 'template'])
   ops, weights = (('ev', 'rtc', 'post_fifo', 'circuit'), (6, 2, 2, 1)) if host == 'queued' else (('ev',), None)
@@ -42,6 +65,14 @@ def generate(seed, stratum, tier):
 
 
 def shrink_candidates(sc):
+  if sc.get('world') == 'ao':
+    cl = sc['clients']
+    for i, s_ in enumerate(cl):
+      for j in range(len(s_) - 1, -1, -1):
+        if s_[j][0] == 'start':
+          continue
+        yield dict(sc, clients=cl[:i] + [s_[:j] + s_[j + 1:]] + cl[i + 1:])
+    return
   for c in cc.shrink_chart(sc):
     if c.get('live_spy') == sc.get('live_spy') and c.get('live_trace') == sc.get('live_trace') and c['host'] == sc['host']:
       yield c
@@ -68,5 +99,60 @@ def collect(run, res):
     res.nontrivial.append(hash((run.host, c.get('kind'), c.get('q_us'), bool(run.sc.get('live_spy')), bool(run.sc.get('live_trace')), ntr // 3)))
 
 
+def execute_shared_writer(sc, sched):
+  """per object: what its live callbacks received (through the shared writer thread) equals what
+  its steps produced, in order"""
+  from worlds import ao as aw, common
+  from checks import ao_common as ac
+  from sim import prims, kernel
+  from sim.runner import RunResult
+  import re
+  res = RunResult()
+
+  def set_clock(sim):
+    c = sc['clock']
+    sim.clock = prims.ClockBehaviour(c.get('kind', 'fine'), c.get('q_us', 1000), {int(k): v for k, v in (c.get('jumps') or {}).items()})
+  run, sim, reason = aw.run_ao(sc, sched, max_steps=300000, before_run=set_clock)
+  try:
+    if ac.base_judge(run, sim, reason, res):
+      foreign = re.compile(r'^POST_(FIFO|LIFO):(SW|SA|SB)$')     # markers of posts made by client threads between steps
+      for oi, o in enumerate(run.objs):
+        od = sc['objects'][oi]
+        if od.get('live_spy'):
+          # the queue reflection is computed twice (once for the step log, once for the full spy) and a
+          # client thread may post in between: the two texts can legitimately differ in the counts
+          norm = lambda l: '<- Queued' if l.startswith('<- Queued:') else l
+          made = [norm(l) for l in o.full.spy.snapshot() if not foreign.match(l)]
+          got = [norm(l) for l in run.live_spy.get(oi, []) if not foreign.match(l)]
+          if len(made) < 480 and got != made:
+            k = 0
+            while k < min(len(got), len(made)) and got[k] == made[k]:
+              k += 1
+            res.violate('live-spy', {'op': 'shared-writer', 'got': 'fewer' if len(got) < len(made) else ('more' if len(got) > len(made) else 'different')},
+                        '%s: the steps produced %d spy lines, the live spy callback received %d; first difference at %d: produced %s / received %s' % (
+                          run.names[oi], len(made), len(got), k, made[k:k + 3], got[k:k + 3]))
+            break
+        if od.get('live_trace'):
+          tr = [(t.start_state, t.signal, t.end_state) for t in o.full.trace.snapshot()]
+          lt = run.live_trace.get(oi, [])
+          bad = len(lt) != len(tr) or any(('%s->%s' % (t[0], t[2])) not in line for t, line in zip(tr, lt))
+          if len(tr) < 480 and bad:
+            res.violate('live-trace', {'op': 'shared-writer', 'got': 'fewer' if len(lt) < len(tr) else ('more' if len(lt) > len(tr) else 'wrong-line')},
+                        '%s: %d trace records %s, the live trace callback was called %d times: %s' % (run.names[oi], len(tr), tr[:6], len(lt), lt[:6]))
+            break
+      clk = getattr(sim, 'clock', None)
+      if clk is not None and (clk.repeats or sim.faults.get('clock_jump')):
+        sim.probe('equal_consecutive_timestamps')
+        res.nontrivial.append(hash(('shared', len(run.objs), sc['clock'].get('kind'), sc['clock'].get('q_us'), len(run.dispatch) // 4)))
+    if res.outcome == 'violation' or sched.get('seed', 0) % 499 == 0:
+      res.sample = {'world': 'active objects sharing the writer thread', 'clock': sc['clock'], 'clients': sc['clients'],
+                    'live_spy_ao1': run.live_spy.get(0, [])[:12], 'live_trace_ao1': run.live_trace.get(0, [])[:4]}
+  finally:
+    common.finish(sim, res)
+  return res
+
+
 def execute(sc, sched):
+  if sc.get('world') == 'ao':
+    return execute_shared_writer(sc, sched)
   return cc.run_and_judge(sc, sched, ORACLES, collect=collect)
